@@ -9,7 +9,7 @@ from spec import events as ev_spec
 
 from .pipeline import Harness, requests_for
 
-FAMILIES = ['http', 'json', 'soap11', 'soap12', 'xml', 'yaml', 'msgpack']
+FAMILIES = ['http', 'json', 'soap11', 'soap12', 'xml', 'yaml', 'msgpack', 'msgpackrpc']
 FAIL_SITES = [None] + [(label, event, kind)
                        for event in ('method_call', 'method_return_object')
                        for label in ('app', 'service', 'method')
